@@ -648,6 +648,13 @@ def rule_jn_build(cx, rep, port):
     mx = [n for n in walk_no_nested(b) if isinstance(n, ast.Assign) and dotted(n.targets[0]) == 'self.max_record_len']
     okm = len(mx) == 1 and 'max(self.max_record_len, {})'.format(nfn) in node_text(mx[0].value).replace('Math.', '')
     rep.decide(okm, 'max width', mx[0] if mx else b, 'max_record_len is the running maximum of the B field counts', 'max_record_len is not the maximum field count of B')
+    if 'init' in ms or '__init__' in ms:
+        ini = ms.get('__init__') or ms.get('init')
+        m0 = [n for n in walk_no_nested(ini) if isinstance(n, ast.Assign) and dotted(n.targets[0]) == 'self.max_record_len']
+        if len(m0) == 1 and isinstance(m0[0].value, ast.Constant):
+            rep.decide(m0[0].value.value == 0 and m0[0].value.value is not False, 'max width start', m0[0], 'the running maximum starts at 0 (an empty B table gives an empty null record)', 'the running maximum of the B field counts starts at {}: with an empty (or narrower) B table LEFT JOIN pads every record with that many nulls'.format(m0[0].value.value))
+        elif m0:
+            rep.undecided('max width start', m0[0], 'initial max_record_len is not a constant')
     nf = [n for n in walk_no_nested(b) if isinstance(n, ast.Assign) and is_name(n.targets[0], nfn)]
     rep.decide(len(nf) == 1 and node_text(nf[0].value) == 'len({})'.format(rec), 'bNF', nf[0] if nf else b, 'bNF = len(record)', 'bNF is not the field count of the B record')
     # key functions: index -1 -> record number ; missing field -> runtime error
